@@ -116,6 +116,9 @@ func init() {
 				return tuple{0, goError(fr, "write "+mf.name+": file already closed")}, true
 			}
 			b := a[1].([]value)
+			if mf.name == "/dev/full" {
+				return tuple{0, goError(fr, "write /dev/full: no space left on device")}, true
+			}
 			mf.data = append(mf.data, b...)
 			if mf.write {
 				cur.os.files[mf.name] = mf.data
